@@ -108,6 +108,11 @@ func (r *Reporter) formatPrettyError(violation Violation) string {
 
 				// Calculate column position in truncated line
 				displayColumn := calculateDisplayColumn(line, position.Column, MaxLineLength)
+				// A //line directive can claim any column: the caret never stands beyond
+				// the position just after the shown line
+				if displayColumn > len(truncatedLine)+1 {
+					displayColumn = len(truncatedLine) + 1
+				}
 
 				// Add spaces to align the pointer: one cell per character before it
 				for i := 1; i < displayColumn; i++ {
